@@ -26,6 +26,10 @@ def main(ctx):
     cfg = "Writer_thorough.cfg" if thorough else "Writer_quick.cfg"
     ctx.tlc_model("Writer", cfg, env={"VERIF_CASES": cases}, timeout=1500)
     ctx.tlc_model("Writer", "Writer_live.cfg", timeout=600)
+    # unbounded in the arrival history (n <= 16): inductive invariant of the re-sequencing buffer (Apalache)
+    for a in (["--init=Init", "--inv=IndInv", "--length=0"], ["--init=IndInit", "--inv=IndInv", "--length=1"],
+              ["--init=IndInit", "--inv=NothingLostAtEnd", "--length=0"]):
+        ctx.apalache("ReseqInd.tla", a)
     allcases = vlib.read_cases(cases)
     ctx.expect_vacuity("exported writer histories", len(allcases))
     ctx.extra["exported_cases"] = len(allcases)
